@@ -71,6 +71,7 @@ def run(ck):
                  "wrong sequence lengths, time zones, unsupported types", 'M0', 8)
 
     orderings = weak_orderings3()
+    ck.extra['exhaustive_parts'] = ['R13.1: 3 interval classes x all 13 weak orderings of (low, item, high) -- a complete abstraction for functions that touch their arguments only through comparisons']
     ck.need(R1, len(orderings) == 13, "internal: ordering enumeration")
 
     # ------------------------------------------------------------------ R13.1
